@@ -26,7 +26,7 @@ TIERS = {
     'thorough': {'runs': 2400000, 'det': 2000, 'cap': 6 * 3600},
 }
 PROPS = ('C02', 'C04', 'C10', 'C20')
-CHUNK = 200
+from .run import CHUNK      # noqa: E402  (the chunk size is part of what a run index means)
 
 RULES = {
     'C20': 'one case = one seeded run: a generated program (5-28 top-level ops plus ops run from inside '
@@ -398,7 +398,7 @@ PROBES = {
             'probe_flag_raising_write', 'probe_inaccuracy_propagated', 'probe_reset_of_raised_flag',
             'register_write', 'fault_F3_fired', 'fault_F4_fired', 'fault_F8_fired', 'c04_selfwrite_judged',
             'fault_F8_reset_fired', 'c04_selfreset_judged', 'c04_rejected_before_store_judged'],
-    'C10': ['c10_hop_judged', 'c10_hop_inexact_or_out_of_range', 'c10_hop_all_codes_of_source_format', 'c10_hop_out_of_domain', 'c10_route_resize', 'c10_route_resize_dtype',
+    'C10': ['c10_hop_judged', 'c10_hop_inexact_or_out_of_range', 'c10_hop_all_codes_of_source_format', 'c10_hop_out_of_domain', 'c10_hop_rescaled_code_beyond_62_bits', 'c10_route_resize', 'c10_route_resize_dtype',
             'c10_route_like_kw', 'c10_route_like_method', 'c10_route_ctor_from', 'c10_route_set_from_call',
             'c10_route_set_from_set_val', 'c10_route_equal', 'c10_route_setitem_from', 'self_conversion',
             'fault_F3_fired', 'fault_F5_template_flip'],
